@@ -51,30 +51,28 @@ def register(db):
         requires=["valid_parameters(parameters)", "parameters.delay.cron is None",
                   # the precondition under which _prepare_* do not overflow the year 9999 (environmental)
                   "parameters.delay.defer_by is None or us(parameters.delay.defer_by) <= 10**6 * 86400 * 366 * 1000"],
+        fresh={"newp": ("Parameters", "trace[0][3]")},
+        effects=[
+            ("trace", "('requeue', key, payload, newp)", "retry_branch(result_, parameters) or recurring(parameters)"),
+            ("trace", "('ack', key)", "not retry_branch(result_, parameters) and not recurring(parameters) and result_.success"),
+            ("trace", "('nack', key)", "not retry_branch(result_, parameters) and not recurring(parameters) and not result_.success"),
+        ],
         ensures={
-            "exactly_one": "len(trace) == 1",
             "retry": "implies(retry_branch(result_, parameters),"
-                     " trace[0][0] == 'requeue' and trace[0][1] is key and trace[0][2] == payload"
-                     " and trace[0][3].retries.already_tried == parameters.retries.already_tried + 1"
-                     " and trace[0][3].delay.next_execution_time == now + policy(actor.retry_policy, parameters.retries.already_tried + 1)"
-                     " and trace[0][3].timestamp == parameters.timestamp"
-                     " and same_but_schedule(trace[0][3], parameters))",
+                     " newp.retries.already_tried == parameters.retries.already_tried + 1"
+                     " and newp.delay.next_execution_time == now + policy(actor.retry_policy, parameters.retries.already_tried + 1)"
+                     " and newp.timestamp == parameters.timestamp"
+                     " and same_but_schedule(newp, parameters))",
             "reschedule": "implies(not retry_branch(result_, parameters) and recurring(parameters),"
-                          " trace[0][0] == 'requeue' and trace[0][1] is key and trace[0][2] == payload"
-                          " and trace[0][3].retries.already_tried == 0 and trace[0][3].timestamp == now2"
-                          " and same_but_schedule(trace[0][3], parameters)"
-                          " and implies(periodic(parameters, now), now < trace[0][3].delay.next_execution_time"
-                          "             and trace[0][3].delay.next_execution_time <= now + parameters.delay.defer_by))",
-            "ack": "implies(not retry_branch(result_, parameters) and not recurring(parameters) and result_.success,"
-                   " trace[0] == ('ack', key))",
-            "nack": "implies(not retry_branch(result_, parameters) and not recurring(parameters) and not result_.success,"
-                    " trace[0] == ('nack', key))",
+                          " newp.retries.already_tried == 0 and newp.timestamp == now2"
+                          " and same_but_schedule(newp, parameters)"
+                          " and implies(periodic(parameters, now), now < newp.delay.next_execution_time"
+                          "             and newp.delay.next_execution_time <= now + parameters.delay.defer_by))",
         },
         lets={"result_": "result"},
         raises=[Raises("OverflowError", mode="may", when="True",
                        ensures={"no_disposition": "len(trace) == 0"})],
         modifies=[],
-        trace_exact=False,
     )
     db.lemmas.append(dict(
         name="retry_chain_step", serves=["C04"],
